@@ -1,6 +1,8 @@
 """C17 — charges form an abelian group with parity; sector enumeration is exact."""
 import itertools
 
+import numpy as np
+
 from symv import refsym as R
 
 META = {
@@ -16,8 +18,8 @@ META = {
     ),
     "anchors": ["abelian_core.AbelianArray.gen_valid_sectors", "symmetries.get_symmetry"],
     "floors": {
-        "quick": {"evaluations": 20000, "distinct_nontrivial": 1500, "tables": {"axioms": 10000, "sectors": 3000, "huge/candidates>65536*last": 8}},
-        "thorough": {"evaluations": 300000, "distinct_nontrivial": 30000, "tables": {"axioms": 100000, "sectors": 50000}},
+        "quick": {"evaluations": 20000, "distinct_nontrivial": 1500, "tables": {"axioms": 10000, "sectors": 3000, "huge/candidates>65536*last": 8, "cross-symmetry/later-step-with-sectors": 2000}},
+        "thorough": {"evaluations": 300000, "distinct_nontrivial": 30000, "tables": {"axioms": 100000, "sectors": 50000, "cross-symmetry/later-step-with-sectors": 40000}},
     },
     "exhaustive": {"quick": False, "thorough": True},
     "wall": {"quick": 300, "thorough": 1500},
@@ -318,6 +320,61 @@ def lopsided_case(ctx, rng):
         ctx.nontrivial(("lopsided", sym, tuple(len(cs) for cs in css), tuple(duals), repr(charge)))
 
 
+def cross_symmetry_case(ctx, rng):
+    """The SAME BlockIndex objects used under several symmetries one after the other (an index
+    is only a table charge -> size plus a direction, and labels such as 0 / 1 or (0, 1) are valid
+    for several groups: Z2 < Z4 < U1, Z3, Z2Z2 < U1U1 = BoseFermi labels). The enumeration under
+    each symmetry must be right whatever was enumerated with these objects before; user-defined
+    symmetries take part."""
+    sr = ctx.sr
+    from symv import gen
+
+    fam = rng.choice(["int", "int", "tuple"])
+    if fam == "int":
+        pool = rng.choice([[0, 1], [0, 1], [0, 1, 2], [0, 1, 2, 3]])
+        syms = [s_ for s_ in ("Z2", "Z3", "Z4", "U1") if all(R.valid(s_, c) for c in pool)]
+    else:
+        pool = [(0, 0), (0, 1), (1, 0), (1, 1)]
+        syms = ["Z2Z2", "U1U1", "BoseFermi"]
+    nleg = rng.randint(1, 4)
+    css = [sorted(rng.sample(pool, rng.randint(1, len(pool)))) for _ in range(nleg)]
+    duals = [rng.random() < 0.5 for _ in range(nleg)]
+    indices = [sr.BlockIndex({c: 1 + (i + k) % 2 for i, c in enumerate(cs)}, dual=d) for k, (cs, d) in enumerate(zip(css, duals))]
+    if nleg >= 2 and rng.random() < 0.2:
+        indices[-1] = indices[0]
+        css[-1] = css[0]
+        duals[-1] = duals[0]
+    order = [rng.choice(syms) for _ in range(rng.randint(2, 4))]
+    if len(set(order)) < 2:
+        order[-1] = rng.choice([s_ for s_ in syms if s_ != order[0]])
+    ctx.count("cross-symmetry", "->".join(order[:2]))
+    for step, sym in enumerate(order):
+        charge = R.sector_charge(sym, [rng.choice(cs) for cs in css], duals) if rng.random() < 0.8 else rng.choice(pool)
+        expect = R.valid_sectors(sym, css, duals, charge)
+        fermionic = rng.random() < 0.4
+        cls, extra, kind = gen.pick_class(sr, rng, sym, fermionic)
+        kw = dict(extra)
+        if fermionic and R.par(sym, charge):
+            kw["oddpos"] = 1
+        desc = {"symmetries_in_order": order, "step": step, "symmetry": sym, "class": cls.__name__, "kind": kind, "charges": [list(map(repr, cs)) for cs in css], "duals": list(duals), "charge": repr(charge), "same_index_objects_at_every_step": True}
+        how = rng.choice(["gen_valid_sectors", "gen_valid_sectors", "from_fill_fn", "random"])
+        if how == "gen_valid_sectors":
+            o = ctx.call(lambda: list(cls(indices=indices, charge=charge, **kw).gen_valid_sectors()))
+        elif how == "from_fill_fn":
+            o = ctx.call(lambda: list(cls.from_fill_fn(lambda shape: np.ones(shape), indices, charge, **kw).blocks))
+        elif how == "random":
+            o = ctx.call(lambda: list(cls.random(indices, charge=charge, seed=3, **kw).blocks))
+        ctx.evaluated()
+        ctx.count("sectors", f"{sym}:{how}-cross")
+        if not o.ok:
+            ctx.violation(f"{how}-raises-{o.excname}", f"{desc}: {o.exc!r}", desc)
+            continue
+        _judge(ctx, how, o.value, expect, desc)
+        if step >= 1 and expect and nleg >= 2:
+            ctx.count("cross-symmetry", "later-step-with-sectors")
+            ctx.nontrivial(("cross", tuple(order[: step + 1]), tuple(map(tuple, css)), tuple(duals), repr(charge)))
+
+
 def _judge(ctx, what, got, expect, desc):
     gs = set(got)
     es = set(expect)
@@ -390,3 +447,5 @@ def run(ctx):
         ctx.run_case(huge_case, ctx, rng)
     for _, rng in ctx.cases("lopsided", ctx.budget(4000, 80000)):
         ctx.run_case(lopsided_case, ctx, rng)
+    for _, rng in ctx.cases("cross-symmetry", ctx.budget(6000, 120000)):
+        ctx.run_case(cross_symmetry_case, ctx, rng)
